@@ -936,3 +936,7 @@ type OutFirst struct {
 	In InFirst
 	P  *InFirst
 }
+
+// Props: a NAMED type whose underlying type is the type an untyped map decodes to. A list of such maps is a typed
+// destination that a decoded map[interface{}]interface{} is assignable to without being of that type (C14).
+type Props map[interface{}]interface{}
